@@ -125,7 +125,7 @@ def make_variant(kind: str, rng: random.Random) -> dict:
         v.update(engines=core.pick(rng, ["engine0", "engine1", "both"]), ukey=rng.randrange(2))
     elif kind == "hab_config":
         v.update(keylen=core.pick(rng, [128, 192, 256]), dcd=rng.random() < 0.5, app_len=core.pick(rng, [1024, 3000, 8192]),
-                 mac=core.pick(rng, [16, 16, 8]))
+                 mac=core.pick(rng, [16, 16, 8]), reuse0=rng.random() < 0.5)
     elif kind == "bootimgrt_add_image":
         v.update(dek=core.pick(rng, ["empty", "empty", "given"]), app_len=core.pick(rng, [1024, 2048]))
         v["nexp"] = 0
@@ -135,8 +135,10 @@ def make_variant(kind: str, rng: random.Random) -> dict:
     return v
 
 
-def make_plan(rng: random.Random, kinds: list[str], tag: str, interleave: bool = True) -> dict:
+def make_plan(rng: random.Random, kinds: list[str], tag: str, interleave: bool = True, force: Optional[dict] = None) -> dict:
     arts = [{"kind": k, "var": make_variant(k, rng)} for k in kinds]
+    for a in arts:
+        a["var"].update((force or {}).get(a["kind"], {}))
     queues = [[[i, "c"]] + [[i, "x"]] * a["var"]["nexp"] for i, a in enumerate(arts)]
     steps: list = []
     if interleave:
@@ -682,7 +684,7 @@ section (SEC_CSF_AUTHENTICATE_DATA;
 
 section (SEC_CSF_INSTALL_SECRET_KEY;
     SecretKey_Name="gen_hab_encrypt/dek.bin",
-    SecretKey_Length={keylen},
+    SecretKey_Length={keylen},{reuse}
     SecretKey_VerifyIndex=0,
     SecretKey_TargetIndex=0)
 {{
@@ -701,7 +703,7 @@ section (SEC_CSF_DECRYPT_DATA;
 class HabArt(Art):
     def option_class(self):
         v = self.var
-        return f"keylen={v['keylen']} dcd={v['dcd']} app={v['app_len']} mac={v['mac']}"
+        return f"keylen={v['keylen']} dcd={v['dcd']} app={v['app_len']} mac={v['mac']} reuse0={v.get('reuse0', False)}"
 
     def construct(self):
         from spsdk.image.hab.hab_container import HabContainer
@@ -713,7 +715,8 @@ class HabArt(Art):
         dcd = ""
         if v["dcd"]:
             dcd = f'    DCDFilePath = "{data}/rt1165_semcnand_encrypted_random/dcd_files/evkmimxrt1166_SDRAM_dcd.bin";\n'
-        _write(os.path.join(d, "config.bd"), HAB_BD.format(dcd=dcd, data=data, keylen=v["keylen"], mac=v["mac"]))
+        _write(os.path.join(d, "config.bd"), HAB_BD.format(dcd=dcd, data=data, keylen=v["keylen"], mac=v["mac"],
+                                                              reuse="\n    SecretKey_ReuseDek=0," if v.get("reuse0") else ""))
         app = _write(os.path.join(d, "app.bin"), rb(self.rng, v["app_len"]))
         cfg = HabContainer.load_configuration(os.path.join(d, "config.bd"), [app], search_paths=[d])
         self.obj = HabContainer.load_from_config(cfg, search_paths=[d])
@@ -829,14 +832,26 @@ def ledger_json(mon: monitors.Monitors) -> dict:
 
 # =================================================================================================================
 # the offline checker
+def _sb2_default_arg(d: monitors.Draw) -> bool:
+    """Drawn while the class body of BootImageV20 / BootImageV21 was executed at import of sb2/images.py, i.e. while
+    the default argument ``advanced_params=SBV2xAdvancedParams()`` was evaluated."""
+    return d.at_import and d.import_file == "spsdk/sbfile/sb2/images.py" and \
+        any(s.endswith((" BootImageV20", " BootImageV21")) for s in d.stack)
+
+
+def _mbi_class_level_iv(d: monitors.Draw) -> bool:
+    """Drawn by the class body of Mbi_MixinCtrInitVector (NEEDED_MEMBERS) at import of mbi_mixin.py."""
+    return d.at_import and d.import_file == "spsdk/image/mbi/mbi_mixin.py" and \
+        any(s.endswith(" Mbi_MixinCtrInitVector") for s in d.stack)
+
+
 def classify(kind: str, name: str, value: bytes, origin: Optional[monitors.Draw], in_window: bool, repeated: bool) -> str:
     """Mechanism key decided by inspecting the case: artifact kind, attribute, where the originating draw was made."""
     base = name.split(".")[-1]
     if origin is not None and origin.at_import:
-        if kind in ("sb20_default", "sb21_default") and base in ("dek", "mac", "nonce") \
-                and origin.import_file == "spsdk/sbfile/sb2/images.py" and any("SBV2xAdvancedParams" in s or "__init__" in s or "_create_nonce" in s for s in origin.stack[:2]):
+        if kind in ("sb20_default", "sb21_default") and base in ("dek", "mac", "nonce") and _sb2_default_arg(origin):
             return "sb2-default-advanced-params-shared"
-        if kind == "mbi_ctor" and base == "ctr_init_vector" and origin.import_file == "spsdk/image/mbi/mbi_mixin.py":
+        if kind == "mbi_ctor" and base == "ctr_init_vector" and _mbi_class_level_iv(origin):
             return "mbi-ctr-iv-drawn-at-import"
         return f"secret-drawn-at-import:{kind}.{base}"
     if origin is not None and not in_window:
@@ -1064,9 +1079,13 @@ REPO_TESTS_THOROUGH = [["tests/sbfile"], ["tests/image/mbi"], ["tests/utils/cryp
                         "tests/nxpimage/test_nxpimage_iee.py"], ["tests/nxpimage/test_nxpimage_mbi.py"], ["tests/nxpimage/test_nxpimage_hab.py"]]
 
 
+# directed witnesses are deterministic: the options that decide whether the defect shows are pinned
+DIRECTED_FORCE = {"bootimgrt_add_image": {"dek": "empty"}, "mbi_ctor": {"hmac": 0, "keysource": "OTP"}}
+
+
 def cases(tier, seed):  # noqa: ARG001
     for i, kinds in enumerate(DIRECTED):
-        yield {"kind": "directed", "k": i, "kinds": kinds}
+        yield {"kind": "directed", "k": i, "kinds": kinds, "force": DIRECTED_FORCE}
     n_hist = 240 if tier == "thorough" else 38
     for k in range(n_hist):
         yield {"kind": "history", "k": k, "n": 2 + (k * 7 + 3) % 11}
@@ -1099,7 +1118,8 @@ def selftest(ctx):  # noqa: ARG001
     if clean.by_mech:
         raise AssertionError(f"checker flags a clean history: {list(clean.by_mech)}")
     imp = judge([D(1, "random_bytes", v1, "spsdk/sbfile/sb2/images.py:85 __init__", True, "spsdk/sbfile/sb2/images.py",
-                   ["spsdk/sbfile/sb2/images.py:85 __init__"])],
+                   ["spsdk/sbfile/sb2/images.py:85 __init__", "spsdk/sbfile/sb2/images.py:509 BootImageV21",
+                    "spsdk/sbfile/sb2/images.py:490 <module>"])],
                 [art(0, "sb21_default", [(2, 3)], [("dek", v1)])], [], st)
     if list(imp.by_mech) != ["sb2-default-advanced-params-shared"]:
         raise AssertionError(f"import-time draw not classified: {list(imp.by_mech)}")
@@ -1194,7 +1214,7 @@ def _report(ctx, fnd: Findings, record: dict, where: str) -> None:
 
 def _run_history(case, ctx, kinds):
     assert MON is not None
-    plan = make_plan(ctx.rng, kinds, f"{ctx.seed}/{ID}/{ctx.case_index}")
+    plan = make_plan(ctx.rng, kinds, f"{ctx.seed}/{ID}/{ctx.case_index}", force=case.get("force"))
     d0, c0 = len(MON.rng.draws), len(MON.ctr.calls)
     wd = os.path.join(ctx.workdir, f"case{ctx.case_index}")
     try:
@@ -1401,9 +1421,9 @@ def _run_repo_tests(case, ctx):
             users = [c for c in calls if c.op == "enc" and _used_by(c, d)]
             judged += 1
             if users:
-                if d.import_file == "spsdk/sbfile/sb2/images.py":
+                if _sb2_default_arg(d):
                     mech = "sb2-default-advanced-params-shared"
-                elif d.import_file == "spsdk/image/mbi/mbi_mixin.py":
+                elif _mbi_class_level_iv(d):
                     mech = "mbi-ctr-iv-drawn-at-import"
                 else:
                     mech = f"import-time-secret-used-for-encryption:{d.import_file}"
